@@ -283,6 +283,111 @@ func mutate(g *hx.Gen, v reflect.Value) {
 	}
 }
 
+var proxyTypes = []string{"tcp", "udp", "http", "http", "https", "https", "tcpmux", "tcpmux", "stcp", "sudp", "xtcp"}
+var someDomains = []string{"x.test", "x.test", "y.test", "*.x.test", "a.sub.test", "X.TEST", "*", ""}
+
+// structuredNewProxy: valid in shape for its type, adversarial in the values that select resources.
+func structuredNewProxy(g *hx.Gen, i int) *msg.NewProxy {
+	np := &msg.NewProxy{ProxyName: fmt.Sprintf("sp%d", g.Intn(6)), ProxyType: proxyTypes[g.Intn(len(proxyTypes))]}
+	switch np.ProxyType {
+	case "tcp", "udp":
+		np.RemotePort = []int{0, 0, -1, 65536, 70000, 1}[g.Intn(6)]
+	case "http", "https", "tcpmux":
+		n := 1 + g.Intn(3)
+		for k := 0; k < n; k++ {
+			np.CustomDomains = append(np.CustomDomains, someDomains[g.Intn(len(someDomains))])
+		}
+		if g.Chance(0.35) { // a later domain fails after an earlier one succeeded: the same domain twice
+			d := []string{"x.test", "dup.test", "y.test"}[g.Intn(3)]
+			np.CustomDomains = []string{d, d}
+		}
+		if g.Chance(0.3) {
+			np.SubDomain = []string{"sd", "a.b", "*", ""}[g.Intn(4)]
+		}
+		if np.ProxyType == "http" {
+			np.Locations = [][]string{nil, {"/"}, {"/a", "/a"}, {"/a", "/b"}}[g.Intn(4)]
+			np.RouteByHTTPUser = []string{"", "u"}[g.Intn(2)]
+		}
+		if np.ProxyType == "tcpmux" {
+			np.Multiplexer = []string{"httpconnect", "httpconnect", "httpconnect", "", "bogus"}[g.Intn(5)]
+		}
+	default:
+		np.Sk = "k"
+		np.AllowUsers = [][]string{nil, {"*"}, {"u"}}[g.Intn(3)]
+	}
+	if g.Chance(0.3) && (np.ProxyType == "tcp" || np.ProxyType == "http" || np.ProxyType == "tcpmux") {
+		np.Group = []string{"g1", "g2"}[g.Intn(2)]
+		np.GroupKey = []string{"gk", "other"}[g.Intn(2)]
+	}
+	if g.Chance(0.2) {
+		np.BandwidthLimit = []string{"1KB", "-1MB", "x", "1MB"}[g.Intn(4)]
+		np.BandwidthLimitMode = []string{"server", "client", "bogus"}[g.Intn(3)]
+	}
+	return np
+}
+
+// reloginScenario: login (run id R); then a second login with run id R whose connection is closed by
+// the peer at a random point (before / right after sending, so the LoginResp write may fail); then an
+// ordinary re-login with R must be answered.  Returns "ok…" or what went wrong.
+func reloginScenario(g *hx.Gen, s *hx.Server) string {
+	p, _, err := s.Login(hx.LoginOpts{})
+	if err != nil || p == nil {
+		return "ok (first login refused)"
+	}
+	rid := p.RunID
+	how := g.Intn(3)
+	conn, err := s.Dial()
+	if err == nil {
+		ts := time.Now().Unix()
+		lm := &msg.Login{Version: "0.61.0", RunID: rid, PrivilegeKey: util.GetAuthKey(hx.DefaultToken, ts), Timestamp: ts}
+		switch how {
+		case 0:
+			_ = msg.WriteMsg(conn, lm)
+			conn.Close()
+		case 1:
+			_ = msg.WriteMsg(conn, lm)
+			if tc, ok := conn.(*net.TCPConn); ok {
+				_ = tc.SetLinger(0) // RST
+			}
+			conn.Close()
+		default:
+			_ = msg.WriteMsg(conn, lm)
+			time.Sleep(time.Duration(g.Intn(5)) * time.Millisecond)
+			conn.Close()
+		}
+	}
+	p.Close()
+	// The dropped login may be processed after a later one and then legitimately replaces it (the run id
+	// designates the session stored last), so one unanswered attempt proves nothing: the server is stalled
+	// only if NO attempt is answered.
+	last := ""
+	for attempt := 0; attempt < 3; attempt++ {
+		done := make(chan string, 1)
+		go func() {
+			p2, resp, err := s.Login(hx.LoginOpts{RunID: rid})
+			switch {
+			case err != nil:
+				done <- "no answer: " + err.Error()
+			case p2 == nil:
+				done <- "ok (refused: " + resp.Error + ")"
+			default:
+				p2.Close()
+				done <- "ok"
+			}
+		}()
+		select {
+		case last = <-done:
+		case <-time.After(6 * time.Second):
+			last = "no LoginResp within 6 s"
+		}
+		if strings.HasPrefix(last, "ok") {
+			break
+		}
+		time.Sleep(50 * time.Millisecond)
+	}
+	return fmt.Sprintf("%s [drop variant %d]", last, how)
+}
+
 func wsDial(s *hx.Server) (net.Conn, error) {
 	addr := fmt.Sprintf("%s:%d", s.Addr, s.Port)
 	raw, err := net.DialTimeout("tcp", addr, 2*time.Second)
@@ -453,7 +558,37 @@ func runBarrage(cfg *hx.RunCfg) error {
 			detail = detail[:300]
 		}
 		kind := ""
-		switch g.Intn(3) {
+		switch []int{0, 0, 1, 2, 2, 3, 3, 3, 3, 4}[g.Intn(10)] {
+		case 3: // structured: a mostly valid NewProxy of a random type with adversarial route/port/group fields
+			kind = "structured-newproxy"
+			np := structuredNewProxy(g, i)
+			m = np
+			typ = "NewProxy:" + np.ProxyType
+			detail = fmt.Sprintf("%+v", np)
+			if len(detail) > 300 {
+				detail = detail[:300]
+			}
+			p, _, _ := s.Login(hx.LoginOpts{PoolCount: g.Intn(2)})
+			if p != nil {
+				_ = p.Send(np)
+				if g.Chance(0.5) { // the same registration again (duplicate name / conflicting routes)
+					_ = p.Send(np)
+				}
+				_, _ = p.Recv(60 * time.Millisecond)
+				if g.Chance(0.5) {
+					_ = p.CloseProxy(np.ProxyName)
+					_ = p.CloseProxy(np.ProxyName)
+				}
+				p.Close()
+			}
+		case 4: // structured: connection dropped at a random point of the login / re-login exchange
+			kind = "structured-relogin"
+			typ = "Login"
+			detail = reloginScenario(g, s)
+			if !strings.HasPrefix(detail, "ok") && c.alive() {
+				fails = append(fails, map[string]any{"key": "frps-stalled:relogin-after-dropped-login", "what": "a re-login with a known run id got no LoginResp in 4 s after an earlier login with that run id was dropped mid-exchange: " + detail,
+					"case": detail})
+			}
 		case 0: // unauthenticated first message
 			kind = "first-message"
 			conn, err := s.Dial()
